@@ -281,7 +281,7 @@ func runC32(c *an.Ctx) {
 			}
 			okD := false
 			for _, dc := range an.CallsTo(nm, "codec.(*Decoder).Decode") {
-				if strings.Contains(an.Path(an.CallOf(dc).Args[0]), rd) && strings.HasSuffix(an.Path(an.CallOf(dc).Args[1]), "&local:header") && read != nil && an.Dominates(dc, read) {
+				if strings.Contains(an.Path(an.CallOf(dc).Args[0]), rd) && strings.HasSuffix(an.Path(an.CallOf(dc).Args[1]), "&local:relayHeader") && read != nil && an.Dominates(dc, read) {
 					okD = an.GuardedBy(nm, s, an.Cmp{L: an.Path(dc.(ssa.Value)), Op: "==", R: "c:nil"})
 				}
 			}
@@ -289,12 +289,12 @@ func runC32(c *an.Ctx) {
 			okA, okN := false, false
 			for _, st := range an.StoresTo(nm, ".Addr") {
 				if t, _, _ := an.FieldOf(st.Addr); t == "Address" {
-					okA = an.Path(st.Val) == "net.(*UDPAddr).String(&local:header.DestAddr)"
+					okA = an.Path(st.Val) == "net.(*UDPAddr).String(&local:relayHeader.DestAddr)"
 				}
 			}
 			for _, st := range an.StoresTo(nm, ".Name") {
 				if t, _, _ := an.FieldOf(st.Addr); t == "Address" {
-					okN = an.Path(st.Val) == "local:header.DestName"
+					okN = an.Path(st.Val) == "local:relayHeader.DestName"
 				}
 			}
 			c.Add(okA && okN, "R3", "forwarder:destination", s, "the relayed message goes to the header's destination address and name", "field provenance")
